@@ -327,8 +327,40 @@ Definition pr_repr (r : pres) : str := py_repr (vpr (view r)).
 (* ------------------------------------------------------------------------------------------------------ *)
 (* used by the correspondence harness                                                                        *)
 (* ------------------------------------------------------------------------------------------------------ *)
+(* long strings are handed to the harness as a 61-bit shift-add hash (printing long lists is slow); on a mismatch the
+   harness re-evaluates the string itself *)
+Definition shash (s : str) : N :=
+  fold_left (fun acc c => N.land (N.shiftl acc 5 + acc + c + 1) 2305843009213693951%N) s 5381%N.
+(* as_list() is the head of dump(), as_dict() and the token list are inside repr(): the three hashes cover them *)
 Definition observe (r : pres) :=
-  (as_list r, as_dict r, keys r, values r, len r, pr_bool r, pr_haskeys r, pr_str r, pr_repr r, pr_dump r, get_name r).
+  (keys r, len r, pr_bool r, pr_haskeys r, shash (pr_str r), shash (pr_repr r), shash (pr_dump r), get_name r).
+(* structural hash of a state (tokens, name table with positions, _name; the list-all set is printed as is) *)
+Definition hmix (a b : N) : N := N.land (a * 1114129 + b + 1) 2305843009213693951%N.
+Definition hash_Z (z : Z) : N := (Z.abs_N z * 2 + (if (z <? 0)%Z then 1 else 0))%N.
+Fixpoint hash_tok (t : tok) : N :=
+  match t with
+  | TStr s => hmix 1 (shash s)
+  | TInt z => hmix 2 (hash_Z z)
+  | TBool b => hmix 3 (if b then 1 else 0)%N
+  | TNone => 4%N
+  | TList l => fold_left (fun acc x => hmix acc (hash_tok x)) l 5%N
+  | TPR r =>
+    let ht := fold_left (fun acc x => hmix acc (hash_tok x)) (toks r) 6%N in
+    let hd := fold_left (fun acc kv =>
+                           fold_left (fun acc2 vp => hmix (hmix acc2 (hash_tok (fst vp))) (hash_Z (snd vp)))
+                                     (snd kv) (hmix acc (shash (fst kv))))
+                        (dict r) 8%N in
+    hmix (hmix ht hd) (match rname r with Some n => hmix 9 (shash n) | None => 10%N end)
+  end.
+Definition hash_pres (r : pres) : N := hash_tok (TPR r).
+Definition observe_light (r : pres) :=
+  (keys r, len r, pr_bool r, pr_haskeys r, 0%N, 0%N, shash (pr_dump r), get_name r).
+Fixpoint explore_hash (depth : nat) (alphabet : list op) (r : pres) :=
+  match depth with
+  | O => []
+  | S d => flat_map (fun o => let (r1, res) := apply_op r o in
+                              (res, (hash_pres r1, allnames r1), observe_light r1) :: explore_hash d alphabet r1) alphabet
+  end.
 (* every history of length <= depth over an alphabet, DFS pre-order: (result of the last operation, state after it,
    observation bundle of that state) *)
 Fixpoint explore_obs (depth : nat) (alphabet : list op) (r : pres) :=
